@@ -30,6 +30,7 @@ var (
 	flagDump    = flag.Bool("dump", false, "print every obligation")
 	flagBaseline = flag.String("baseline", "/verif/baseline_obligations.json", "baseline file")
 	flagKnown   = flag.String("known", "/verif/known_findings.json", "known findings file")
+	flagNames   = flag.String("names", "/verif/baseline_names.json", "parameter / local names of every function on the baseline tree")
 	flagWriteBaseline = flag.Bool("write-baseline", false, "rewrite the baseline from this run (maintainer command)")
 	flagReplayDir = flag.String("replaydir", "/verif/replays", "where replay files are written")
 	flagNoReplay = flag.Bool("noreplay", false, "do not run replays")
@@ -135,6 +136,13 @@ func loadRepo(repo string) (*Loaded, error) {
 			}
 		}
 	}
+	computeKeyOverrides(ld.funcs)
+	if len(keyOverride) > 0 {
+		ld.byKey = map[string]*ssa.Function{}
+		for _, f := range ld.funcs {
+			ld.byKey[fnKeyOf(f)] = f
+		}
+	}
 	sort.Slice(ld.funcs, func(i, j int) bool { return fnKeyOf(ld.funcs[i]) < fnKeyOf(ld.funcs[j]) })
 	ld.loadS = time.Since(t0).Seconds()
 	return ld, nil
@@ -161,7 +169,7 @@ func loadSpecs(repo, specDir string) (*SpecDB, error) {
 }
 
 func newExec(ld *Loaded, db *SpecDB) *Exec {
-	return &Exec{prog: ld.prog, specs: db, maxPaths: 4096, pkgsByName: ld.pkgsByName, varRefs: map[*ssa.Function]map[string][]debugRef{}}
+	return &Exec{prog: ld.prog, specs: db, maxPaths: 4096, pkgsByName: ld.pkgsByName, varRefs: map[*ssa.Function]map[string][]debugRef{}, rebound: map[string]map[string][]string{}}
 }
 
 func main() {
@@ -170,6 +178,7 @@ func main() {
 		os.Exit(replayMain(*flagReplay))
 	}
 	t0 := time.Now()
+	loadBaseNames(*flagNames)
 	ld, err := loadRepo(*flagRepo)
 	if err != nil {
 		fmt.Fprintln(os.Stderr, "load error:", err)
